@@ -312,6 +312,73 @@ func (g *vdb) v25terms(t *vtable, ix []string) []v25term {
 	return terms
 }
 
+// checkWhere25: `t where e` through the real Where under every strategy against the language
+// evaluation of e on every row of t (direct oracle) and the Lean evalQ replay
+func (g *vdb) checkWhere25(tr *lib.Trace, th *Thread, t *vtable, e *vexpr, ks []string, ix []string) {
+	tn := &vnode{op: "table", tbl: t, cols: append([]vcol{}, t.cols...)}
+	q := &vnode{op: "where", kids: []*vnode{tn}, cols: tn.cols, expr: e}
+	if !g.valid(q) {
+		tr.Count("query-rejected")
+		return
+	}
+	// the language on every row
+	names := tn.colNames()
+	hdr := NewHeader([][]string{names}, names)
+	cols := append([]string{}, names...)
+	sort.Slice(cols, func(a, b int) bool { return g.ids.id(cols[a]) < g.ids.id(cols[b]) })
+	var want []string
+	lerr := ""
+	for _, vals := range t.rows {
+		var rb RecordBuilder
+		for _, v := range vals {
+			rb.Add(v.(Packable))
+		}
+		row := Row{DbRec{Record: rb.Build()}}
+		var v Value
+		if msg := lib.Catch(func() {
+			x := v25parse(e.src())
+			ast.Unraw(x)
+			v = x.Eval(&ast.RowContext{Th: th, Hdr: hdr, Row: row})
+		}); msg != "" {
+			lerr = msg
+			break
+		}
+		if v == True {
+			want = append(want, vrowText(hdr, row, cols, th, nil))
+		}
+	}
+	if lerr != "" {
+		tr.Count("language-error")
+		return
+	}
+	sort.Strings(want)
+	wantS := g.ids.list(cols) + " " + strconv.Itoa(len(want)) + " " + strings.Join(want, ";")
+	firstGot, firstPlan, failed := "", "", false
+	for _, st := range vstrategies {
+		res, plan := g.execute(q.src(), st, g.r.Uint64())
+		if res.err == "skip" {
+			return
+		}
+		got := res.show(&g.ids)
+		if firstGot == "" {
+			firstGot, firstPlan = got, plan
+		}
+		if got != wantS {
+			failed = true
+			tr.Fail("where-vs-language:"+strings.Join(ks, "+"),
+				"db: "+g.describe()+" query: "+q.src()+" | index considered "+fmt.Sprint(ix)+" | strategy "+st.name+
+					" executes: "+vtrunc(plan, 300)+" | rows on which the language evaluates the expression to true: "+
+					vtrunc(wantS, 300)+" | executed: "+vtrunc(got, 300)+" | columns "+strings.Join(g.ids.names, ","))
+			break
+		}
+	}
+	// the model replay only where the direct oracle is silent (no double report)
+	if !failed && firstGot != "" {
+		tr.Q("eval "+q.toks(&g.ids), firstGot)
+		tr.Sample(q.src() + "  =>  " + vtrunc(firstPlan, 160))
+	}
+}
+
 func vC25Query(tr *lib.Trace, r *rand.Rand, n int) {
 	th := &Thread{}
 	done := 0
@@ -342,68 +409,7 @@ func vC25Query(tr *lib.Trace, r *rand.Rand, n int) {
 				tr.Count("term=" + k)
 			}
 			sort.Strings(ks)
-			tn := &vnode{op: "table", tbl: t, cols: append([]vcol{}, t.cols...)}
-			q := &vnode{op: "where", kids: []*vnode{tn}, cols: tn.cols, expr: e}
-			if !g.valid(q) {
-				tr.Count("query-rejected")
-				continue
-			}
-			// the language on every row
-			names := tn.colNames()
-			hdr := NewHeader([][]string{names}, names)
-			cols := append([]string{}, names...)
-			sort.Slice(cols, func(a, b int) bool { return g.ids.id(cols[a]) < g.ids.id(cols[b]) })
-			var want []string
-			lerr := ""
-			for _, vals := range t.rows {
-				var rb RecordBuilder
-				for _, v := range vals {
-					rb.Add(v.(Packable))
-				}
-				row := Row{DbRec{Record: rb.Build()}}
-				var v Value
-				if msg := lib.Catch(func() {
-					x := v25parse(e.src())
-					ast.Unraw(x)
-					v = x.Eval(&ast.RowContext{Th: th, Hdr: hdr, Row: row})
-				}); msg != "" {
-					lerr = msg
-					break
-				}
-				if v == True {
-					want = append(want, vrowText(hdr, row, cols, th, nil))
-				}
-			}
-			if lerr != "" {
-				tr.Count("language-error")
-				continue
-			}
-			sort.Strings(want)
-			wantS := g.ids.list(cols) + " " + strconv.Itoa(len(want)) + " " + strings.Join(want, ";")
-			firstGot, firstPlan, failed := "", "", false
-			for _, st := range vstrategies {
-				res, plan := g.execute(q.src(), st, r.Uint64())
-				if res.err == "skip" {
-					continue
-				}
-				got := res.show(&g.ids)
-				if firstGot == "" {
-					firstGot, firstPlan = got, plan
-				}
-				if got != wantS {
-					failed = true
-					tr.Fail("where-vs-language:"+strings.Join(ks, "+"),
-						"db: "+g.describe()+" query: "+q.src()+" | index considered "+fmt.Sprint(ix)+" | strategy "+st.name+
-							" executes: "+vtrunc(plan, 300)+" | rows on which the language evaluates the expression to true: "+
-							vtrunc(wantS, 300)+" | executed: "+vtrunc(got, 300)+" | columns "+strings.Join(g.ids.names, ","))
-					break
-				}
-			}
-			// the model replay only where the direct oracle is silent (no double report)
-			if !failed && firstGot != "" {
-				tr.Q("eval "+q.toks(&g.ids), firstGot)
-				tr.Sample(q.src() + "  =>  " + vtrunc(firstPlan, 160))
-			}
+			g.checkWhere25(tr, th, t, e, ks, ix)
 		}
 		g.close()
 	}
@@ -414,6 +420,7 @@ func TestVerifC25(t *testing.T) {
 	defer tr.Close()
 	r := lib.Rand()
 	n := lib.N(3000)
+	vCorpusC25(tr)
 	defer vC25Query(tr, r, max(200, n/5))
 	reportNeg := os.Getenv("VERIF_NEGPREFIX") == "1"
 	g := &vdb{r: r}
